@@ -75,6 +75,17 @@ Definition lost_sub : sub_env :=
 Theorem C26_refuted_failed_recreate_ignored : ~ C26_statement_reconnect.
 Proof. intros H. specialize (H false [lost_sub] eq_refl lost_sub (or_introl eq_refl)). vm_compute in H. discriminate. Qed.
 
+(* the same defect when CreateSubscription succeeds and CreateMonitoredItems is refused: the subscription is registered
+   again without its items, Connected is reported, it is not counted in activeSubs and publishing is not resumed *)
+Definition half_recreated_sub : sub_env :=
+  {| se_id := 1; se_items := 2; se_transfer_ok := false; se_republish_ok := true; se_create_ok := true; se_items_ok := false |}.
+
+Theorem C26_refuted_failed_recreate_part_way :
+  snd (restore_all false [half_recreated_sub]) = true /\
+  survived half_recreated_sub (fst (restore_one false half_recreated_sub)) = false /\
+  publishing_resumed (SessionLost false) [half_recreated_sub] = false.
+Proof. vm_compute. repeat split; reflexivity. Qed.
+
 (* partial: if every recreate that is attempted can succeed, every subscription survives, whatever the transfer and
    republish outcomes *)
 Theorem C26_partial_subscriptions_survive :
@@ -123,6 +134,7 @@ Print Assumptions C26_reconnect_keeps_queued_acks.
 Print Assumptions C26_refuted_before_fix_republish_never_acked.
 Print Assumptions C26_publish_notifications_acked_exactly_once.
 Print Assumptions C26_refuted_failed_recreate_ignored.
+Print Assumptions C26_refuted_failed_recreate_part_way.
 Print Assumptions C26_partial_subscriptions_survive.
 Print Assumptions C26_publishing_resumed.
 Print Assumptions C26_refuted_before_fix_session_kept_not_resumed.
